@@ -29,6 +29,12 @@ import (
 // the encapsulated type itself is serializable with the Marshal function
 // in encoding/json.
 func Marshal(val cty.Value, t cty.Type) ([]byte, error) {
+	if val.ContainsMarked() {
+		// A conversion below might drop the marked part of the value, and
+		// then we would accept a value that must not be serialized.
+		return nil, cty.Path(nil).NewErrorf("value has marks, so it cannot be serialized")
+	}
+
 	errs := val.Type().TestConformance(t)
 	if errs != nil {
 		// Attempt a conversion
